@@ -562,4 +562,332 @@ theorem evalChain_missing {env : Env} {chains : List Chain} {pkt : Packet} {name
     evalChain env chains pkt (fuel + 1) name mark = .missing name := by
   simp [evalChain, h]
 
+/-! ### the rendered chain names never collide (string-level facts) -/
+
+def unhex (c : Char) : Nat := if c.toNat < 58 then c.toNat - 48 else c.toNat - 87
+
+/-- decoder for one escaped byte -/
+def unescOne : List Char → Nat
+  | [c] => c.toNat
+  | [_, a, b] => unhex a * 16 + unhex b
+  | _ => 0
+
+theorem unesc_escByte : ∀ n : Fin 256, unescOne (escByte (UInt8.ofNat n.val)).toList = n.val := by
+  decide +kernel
+
+theorem escByte_inj (a b : UInt8) (h : escByte a = escByte b) : a = b := by
+  have ha := unesc_escByte ⟨a.toNat, a.toNat_lt⟩
+  have hb := unesc_escByte ⟨b.toNat, b.toNat_lt⟩
+  simp only [UInt8.ofNat_toNat] at ha hb
+  rw [h] at ha
+  exact UInt8.toNat_inj.1 (ha.symm.trans hb)
+
+theorem escBytes_single (b : UInt8) : escBytes [b] = escByte b := by
+  simp [escBytes, String.join]
+
+/-- first seven characters of a name: enough to tell the four chain-name families apart -/
+def pfx7 (s : String) : List Char := s.toList.take 7
+
+theorem pfx7_append (lit x : String) (h : 7 ≤ lit.toList.length) : pfx7 (lit ++ x) = lit.toList.take 7 := by
+  simp [pfx7, String.toList_append, List.take_append_of_le_length h]
+
+theorem firstOccurrences_nodup (seen l : List Bytes) : (firstOccurrences seen l).Nodup := by
+  induction l generalizing seen with
+  | nil => simp [firstOccurrences]
+  | cons y ys ih =>
+    simp only [firstOccurrences]
+    split
+    · exact ih seen
+    · refine List.nodup_cons.2 ⟨?_, ih _⟩
+      intro h
+      have := (mem_firstOccurrences _ _ _).1 h
+      exact this.2 List.mem_cons_self
+
+theorem keys_nodup {names : List Bytes} {t : Tree} (h : sortAndDivide names = some t) :
+    (t.buckets.map (·.1)).Nodup := by
+  unfold sortAndDivide at h
+  simp only at h
+  split at h
+  · exact absurd h (by simp)
+  · have := Option.some.inj h
+    subst this
+    simp only [List.map_map, Function.comp_def, List.map_id']
+    exact firstOccurrences_nodup _ _
+
+theorem key_shape {names : List Bytes} {t : Tree} (ok : TreeOK names t) {b : Bytes × List Bytes}
+    (hb : b ∈ t.buckets) (hm : ∀ n, b.2 ≠ [n]) : ∃ byte, b.1 = t.commonPrefix ++ [byte] := by
+  have hne : b.1 ≠ t.commonPrefix := fun h => by
+    obtain ⟨n, hn⟩ := ok.cpSingle b hb h
+    exact hm n hn
+  obtain ⟨n, hn⟩ := List.exists_mem_of_ne_nil _ (ok.nonempty b hb)
+  have hk := ok.key b hb n hn
+  have hnn : n ∈ names := (ok.mem n).2 ⟨b, hb, hn⟩
+  obtain ⟨rest, hrest⟩ := ok.cpPrefix n hnn
+  unfold prefixOf at hk
+  split at hk
+  · rename_i hlen
+    cases rest with
+    | nil => simp at hrest; rw [← hrest] at hlen; simp at hlen
+    | cons r rs =>
+      refine ⟨r, ?_⟩
+      rw [← hk, ← hrest]
+      simp [List.take_append, List.take_of_length_le]
+  · exact absurd hk.symm hne
+
+theorem childChainName_form (cn : String) (cp : Bytes) (byte : UInt8) :
+    childChainName cn "" cp (cp ++ [byte]) = cn ++ ("-" ++ escByte byte) := by
+  simp [childChainName, escBytes_single, toString, String.append_assoc]
+
+theorem childChain_single (cn ifx epPfx : String) (d : IfDir) (cp : Bytes) (endRules : List Rule)
+    (b : Bytes × List Bytes) (n : Bytes) (h : b.2 = [n]) : childChain cn ifx epPfx d cp endRules b = none := by
+  obtain ⟨p, ns⟩ := b
+  simp only at h
+  subst h
+  rfl
+
+theorem childChain_multi' (cn ifx epPfx : String) (d : IfDir) (cp : Bytes) (endRules : List Rule)
+    (b : Bytes × List Bytes) (hm : ∀ n, b.2 ≠ [n]) :
+    childChain cn ifx epPfx d cp endRules b =
+      some { name := childChainName cn ifx cp b.1, rules := b.2.map (endpointRule epPfx d) ++ endRules } := by
+  obtain ⟨p, ns⟩ := b
+  rcases ns with _ | ⟨a, _ | ⟨c, cs⟩⟩
+  · rfl
+  · exact absurd rfl (hm a)
+  · rfl
+
+/-- names of the child chains of a prefix tree: pairwise distinct, each `<root>-<escaped byte>` -/
+theorem tree_child_names {names : List Bytes} {t : Tree} (hsd : sortAndDivide names = some t)
+    (dp : Dataplane) (cn epPfx : String) (d : IfDir) (endRules : List Rule) :
+    ((buildTree dp cn t epPfx d endRules "").1.map (·.name)).Nodup ∧
+    ∀ c ∈ (buildTree dp cn t epPfx d endRules "").1, ∃ byte, c.name = cn ++ ("-" ++ escByte byte) := by
+  have ok := sortAndDivide_ok hsd
+  have hk := keys_nodup hsd
+  simp only [buildTree]
+  constructor
+  · rw [List.nodup_iff_pairwise_ne, List.pairwise_map]
+    have hp : List.Pairwise (fun b b' : Bytes × List Bytes => b.1 ≠ b'.1) t.buckets := by
+      rw [List.nodup_iff_pairwise_ne, List.pairwise_map] at hk; exact hk
+    have hp' := List.Pairwise.and_mem.1 hp
+    refine List.Pairwise.filterMap _ ?_ hp'
+    intro b b' ⟨hb, hb', hne⟩ c hc c' hc'
+    by_cases hm : ∀ n, b.2 ≠ [n]
+    · by_cases hm' : ∀ n, b'.2 ≠ [n]
+      · rw [childChain_multi' _ _ _ _ _ _ b hm] at hc
+        rw [childChain_multi' _ _ _ _ _ _ b' hm'] at hc'
+        cases hc; cases hc'
+        obtain ⟨x, hx⟩ := key_shape ok hb hm
+        obtain ⟨y, hy⟩ := key_shape ok hb' hm'
+        simp only [hx, hy, childChainName_form]
+        intro heq
+        have h1 := congrArg String.toList heq
+        simp only [String.toList_append, List.append_cancel_left_eq] at h1
+        have := escByte_inj x y (String.toList_inj.1 h1)
+        exact hne (by rw [hx, hy, this])
+      · have : ∃ n, b'.2 = [n] := by
+          by_cases h : ∃ n, b'.2 = [n]
+          · exact h
+          · exact absurd (fun n hn => h ⟨n, hn⟩) hm'
+        obtain ⟨n, hn⟩ := this
+        rw [childChain_single _ _ _ _ _ _ b' n hn] at hc'; cases hc'
+    · have : ∃ n, b.2 = [n] := by
+        by_cases h : ∃ n, b.2 = [n]
+        · exact h
+        · exact absurd (fun n hn => h ⟨n, hn⟩) hm
+      obtain ⟨n, hn⟩ := this
+      rw [childChain_single _ _ _ _ _ _ b n hn] at hc; cases hc
+  · intro c hc
+    obtain ⟨b, hb, hcb⟩ := List.mem_filterMap.1 hc
+    by_cases hm : ∀ n, b.2 ≠ [n]
+    · rw [childChain_multi' _ _ _ _ _ _ b hm] at hcb
+      cases hcb
+      obtain ⟨x, hx⟩ := key_shape ok hb hm
+      exact ⟨x, by simp only [hx, childChainName_form]⟩
+    · have : ∃ n, b.2 = [n] := by
+        by_cases h : ∃ n, b.2 = [n]
+        · exact h
+        · exact absurd (fun n hn => h ⟨n, hn⟩) hm
+      obtain ⟨n, hn⟩ := this
+      rw [childChain_single _ _ _ _ _ _ b n hn] at hcb; cases hcb
+
+theorem lookupChain_none_of_names {chains : List Chain} {t : String}
+    (h : t ∉ chains.map (·.name)) : lookupChain chains t = none := by
+  induction chains with
+  | nil => rfl
+  | cons c cs ih =>
+    simp only [List.map_cons, List.mem_cons, not_or] at h
+    simp only [lookupChain, List.find?_cons]
+    have : (c.name == t) = false := by simpa using Ne.symm h.1
+    rw [this]
+    exact ih h.2
+
+theorem append_ne_self (a y : String) (h : y.toList ≠ []) : a ++ y ≠ a := by
+  intro he
+  have := congrArg String.toList he
+  simp only [String.toList_append, List.append_right_eq_self] at this
+  exact h this
+
+theorem pfx7_epName (pfx : String) (n : Bytes) (h : 7 ≤ pfx.toList.length) :
+    pfx7 (endpointChainName pfx n) = pfx.toList.take 7 := by
+  unfold endpointChainName
+  split <;> exact pfx7_append _ _ h
+
+theorem ne_of_pfx7 {a b : String} (h : pfx7 a ≠ pfx7 b) : a ≠ b := fun he => h (by rw [he])
+
+/-- names of one direction's tree (children + root): pairwise distinct and all with the root's
+7-character prefix -/
+theorem tree_names {names : List Bytes} {t : Tree} (hsd : sortAndDivide names = some t)
+    (dp : Dataplane) (cn epPfx : String) (d : IfDir) (endRules : List Rule) (h7 : 7 ≤ cn.toList.length) :
+    (((buildTree dp cn t epPfx d endRules "").1 ++ [(buildTree dp cn t epPfx d endRules "").2]).map (·.name)).Nodup ∧
+    ∀ x ∈ ((buildTree dp cn t epPfx d endRules "").1 ++ [(buildTree dp cn t epPfx d endRules "").2]).map (·.name),
+      pfx7 x = cn.toList.take 7 := by
+  obtain ⟨hnd, hform⟩ := tree_child_names hsd dp cn epPfx d endRules
+  have hroot : (buildTree dp cn t epPfx d endRules "").2.name = cn := rfl
+  constructor
+  · rw [List.map_append, List.nodup_append]
+    refine ⟨hnd, by simp, ?_⟩
+    intro a ha b hb
+    simp only [List.map_cons, List.map_nil, List.mem_singleton, hroot] at hb
+    subst hb
+    obtain ⟨c, hc, rfl⟩ := List.mem_map.1 ha
+    obtain ⟨byte, hbyte⟩ := hform c hc
+    rw [hbyte]
+    exact append_ne_self _ _ (by simp [String.toList_append])
+  · intro x hx
+    rw [List.map_append, List.mem_append] at hx
+    rcases hx with hx | hx
+    · obtain ⟨c, hc, rfl⟩ := List.mem_map.1 hx
+      obtain ⟨byte, hbyte⟩ := hform c hc
+      rw [hbyte]
+      exact pfx7_append _ _ h7
+    · simp only [List.map_cons, List.map_nil, List.mem_singleton, hroot] at hx
+      subst hx
+      rfl
+
+/-- **The rendered workload dispatch chain names never collide** (either dataplane): the decidable
+side condition of the dispatch theorems holds for every list of interface names. -/
+theorem workload_names_ok (dp : Dataplane) (reject : Bool) (names : List Bytes) (chains : List Chain)
+    (hc : workloadDispatchChains dp reject names = some chains) :
+    chainNamesOK chains
+      (names.map (endpointChainName pfxFromWl) ++ names.map (endpointChainName pfxToWl)) = true := by
+  unfold workloadDispatchChains interfaceNameDispatchChains at hc
+  split at hc
+  · exact absurd hc (by simp)
+  · rename_i t hsd
+    have hc := Option.some.inj hc
+    have p1 : chainFromWl.toList.take 7 = ['c', 'a', 'l', 'i', '-', 'f', 'r'] := by decide
+    have p2 : chainToWl.toList.take 7 = ['c', 'a', 'l', 'i', '-', 't', 'o'] := by decide
+    have p3 : pfxFromWl.toList.take 7 = ['c', 'a', 'l', 'i', '-', 'f', 'w'] := by decide
+    have p4 : pfxToWl.toList.take 7 = ['c', 'a', 'l', 'i', '-', 't', 'w'] := by decide
+    -- names of the two families and their 7-prefixes
+    have key : (chains.map (·.name)).Nodup ∧
+        ∀ x ∈ chains.map (·.name), pfx7 x = ['c', 'a', 'l', 'i', '-', 'f', 'r'] ∨ pfx7 x = ['c', 'a', 'l', 'i', '-', 't', 'o'] := by
+      simp only [pfxFromWl, pfxToWl, ne_eq, String.reduceEq, not_false_eq_true, if_true] at hc
+      cases dp
+      · -- iptables: two prefix trees
+        have hbs : ∀ (cn pf : String) (d : IfDir) (e : List Rule),
+            buildSingle .ipt cn t pf d e "" = buildTree .ipt cn t pf d e "" := by
+          intro cn pf d e; simp [buildSingle]
+        simp only [hbs] at hc
+        obtain ⟨n1, f1⟩ := tree_names hsd .ipt chainFromWl "cali-fw-" .inp (unknownIfaceRules reject) (by decide)
+        obtain ⟨n2, f2⟩ := tree_names hsd .ipt chainToWl "cali-tw-" .out (unknownIfaceRules reject) (by decide)
+        rw [← hc, List.map_append]
+        constructor
+        · rw [List.nodup_append]
+          refine ⟨n1, n2, ?_⟩
+          intro a ha b hb
+          apply ne_of_pfx7
+          rw [f1 a ha, f2 b hb, p1, p2]; decide
+        · intro x hx
+          rcases List.mem_append.1 hx with h | h
+          · exact Or.inl (by rw [f1 x h, p1])
+          · exact Or.inr (by rw [f2 x h, p2])
+      · -- nftables: the two verdict-map root chains
+        simp only [buildSingle, pfxFromWl, pfxToWl, true_and, or_true, true_or, if_true, List.nil_append] at hc
+        rw [← hc]
+        simp only [List.map_append, List.map_cons, List.map_nil, buildVmap, List.cons_append, List.nil_append]
+        constructor
+        · simp only [List.nodup_cons, List.mem_singleton, List.not_mem_nil, not_false_eq_true, List.nodup_nil, and_true]
+          decide
+        · intro x hx
+          simp only [List.mem_cons, List.mem_singleton, List.not_mem_nil, or_false] at hx
+          rcases hx with rfl | rfl
+          · left; decide
+          · right; decide
+    obtain ⟨hnd, hfam⟩ := key
+    simp only [chainNamesOK, Bool.and_eq_true, decide_eq_true_eq, List.all_eq_true, List.mem_append, List.mem_map,
+      Option.isNone_iff_eq_none]
+    refine ⟨hnd, ?_⟩
+    rintro x (⟨n, _, rfl⟩ | ⟨n, _, rfl⟩)
+    · apply lookupChain_none_of_names
+      intro hmem
+      have h7 := pfx7_epName pfxFromWl n (by decide)
+      rcases hfam _ hmem with h | h <;> (rw [h7, p3] at h; exact absurd h (by decide))
+    · apply lookupChain_none_of_names
+      intro hmem
+      have h7 := pfx7_epName pfxToWl n (by decide)
+      rcases hfam _ hmem with h | h <;> (rw [h7, p4] at h; exact absurd h (by decide))
+
+/-- same for `HostDispatchChains(endpoints, default, false)` -/
+theorem host_names_ok (dp : Dataplane) (names : List Bytes) (dflt : Bytes) (wlp : List Bytes) (chains : List Chain)
+    (hc : hostDispatchChains dp names dflt wlp .both false = some chains) :
+    chainNamesOK chains
+      (names.map (endpointChainName "cali-fh-") ++ names.map (endpointChainName "cali-th-") ++
+        [endpointChainName "cali-fh-" dflt, endpointChainName "cali-th-" dflt]) = true := by
+  unfold hostDispatchChains at hc
+  simp only [Bool.false_eq_true, not_false_eq_true, and_true, if_true] at hc
+  unfold interfaceNameDispatchChains at hc
+  split at hc
+  · exact absurd hc (by simp)
+  · rename_i t hsd
+    have hc := Option.some.inj hc
+    have hbs : ∀ (cn pf : String) (d : IfDir) (e : List Rule), pf ≠ pfxFromWl → pf ≠ pfxToWl →
+        buildSingle dp cn t pf d e "" = buildTree dp cn t pf d e "" := by
+      intro cn pf d e h1 h2; simp [buildSingle, h1, h2]
+    rw [hbs _ "cali-fh-" _ _ (by decide) (by decide), hbs _ "cali-th-" _ _ (by decide) (by decide)] at hc
+    simp only [ne_eq, String.reduceEq, not_false_eq_true, if_true] at hc
+    have p1 : "cali-from-host-endpoint".toList.take 7 = ['c', 'a', 'l', 'i', '-', 'f', 'r'] := by decide
+    have p2 : "cali-to-host-endpoint".toList.take 7 = ['c', 'a', 'l', 'i', '-', 't', 'o'] := by decide
+    have p3 : "cali-fh-".toList.take 7 = ['c', 'a', 'l', 'i', '-', 'f', 'h'] := by decide
+    have p4 : "cali-th-".toList.take 7 = ['c', 'a', 'l', 'i', '-', 't', 'h'] := by decide
+    obtain ⟨n1, f1⟩ := tree_names hsd dp "cali-from-host-endpoint" "cali-fh-" .inp
+      (if dflt ≠ [] then [({ action := .goto (endpointChainName "cali-fh-" dflt) } : Rule)] else []) (by decide)
+    obtain ⟨n2, f2⟩ := tree_names hsd dp "cali-to-host-endpoint" "cali-th-" .out
+      ((if dflt ≠ [] ∧ True then wlp.map (skipWorkloadRule dp) else []) ++
+        (if dflt ≠ [] then [({ action := .goto (endpointChainName "cali-th-" dflt) } : Rule)] else [])) (by decide)
+    have key : (chains.map (·.name)).Nodup ∧
+        ∀ x ∈ chains.map (·.name), pfx7 x = ['c', 'a', 'l', 'i', '-', 'f', 'r'] ∨ pfx7 x = ['c', 'a', 'l', 'i', '-', 't', 'o'] := by
+      rw [← hc, List.map_append]
+      simp only [and_true] at n2 f2
+      constructor
+      · rw [List.nodup_append]
+        refine ⟨n1, n2, ?_⟩
+        intro a ha b hb
+        apply ne_of_pfx7
+        rw [f1 a ha, f2 b hb, p1, p2]; decide
+      · intro x hx
+        rcases List.mem_append.1 hx with h | h
+        · exact Or.inl (by rw [f1 x h, p1])
+        · exact Or.inr (by rw [f2 x h, p2])
+    obtain ⟨hnd, hfam⟩ := key
+    simp only [chainNamesOK, Bool.and_eq_true, decide_eq_true_eq, List.all_eq_true, List.mem_append, List.mem_map,
+      Option.isNone_iff_eq_none, List.mem_cons, List.not_mem_nil, or_false]
+    refine ⟨hnd, ?_⟩
+    have hF : ∀ n, lookupChain chains (endpointChainName "cali-fh-" n) = none := by
+      intro n
+      apply lookupChain_none_of_names
+      intro hmem
+      have h7 := pfx7_epName "cali-fh-" n (by decide)
+      rcases hfam _ hmem with h | h <;> (rw [h7, p3] at h; exact absurd h (by decide))
+    have hT : ∀ n, lookupChain chains (endpointChainName "cali-th-" n) = none := by
+      intro n
+      apply lookupChain_none_of_names
+      intro hmem
+      have h7 := pfx7_epName "cali-th-" n (by decide)
+      rcases hfam _ hmem with h | h <;> (rw [h7, p4] at h; exact absurd h (by decide))
+    rintro x ((⟨n, _, rfl⟩ | ⟨n, _, rfl⟩) | rfl | rfl)
+    · exact hF n
+    · exact hT n
+    · exact hF dflt
+    · exact hT dflt
+
 end CalicoVerif.C10
